@@ -1,0 +1,34 @@
+//go:build verif
+
+package ingress
+
+// Contracts checked by /verif/govc (comment-only file; build tag verif).
+
+// ---------------------------------------------------------------------------
+// C15 — a host gets the certificate its Ingress declares, else the default one
+
+//@ count GetTLS = (types.Cache).GetTLSSecretPath
+
+// the declared secret read from the ingress' own namespace (tracked to this
+// ingress), or the default certificate: never anything else
+//@ func (*converter).addTLS
+//@   props C15 C09
+//@   ensures nosecret: secretName == "" ==> calls(GetTLS) == 0 && result == old(c.defaultCrt)
+//@   ensures declared: secretName != "" ==> calls(GetTLS) == 1
+//@   ensures found:    secretName != "" && last(GetTLS).1 == nil ==> result == last(GetTLS).0
+//@   ensures fallback: secretName != "" && last(GetTLS).1 != nil ==> result == old(c.defaultCrt)
+//@   at call GetTLSSecretPath#1 assert own-ns:  $arg1 == source.Namespace && $arg2 == secretName
+//@   at call GetTLSSecretPath#1 assert tracked: len($arg3) == 1 && $arg3[0].Context == source.Type && $arg3[0].UniqueName == source.Namespace + "/" + source.Name
+//@ end
+
+// reading the certificate's subject must not assume that a certificate was
+// parsed: file:// references (and such a default certificate) carry none
+//@ func (*converter).syncIngressHTTP
+//@   props C15
+//@   safe x509.Certificate
+//@ end
+
+//@ func (*converter).syncIngressTCP
+//@   props C15
+//@   safe x509.Certificate
+//@ end
